@@ -314,7 +314,11 @@ Ltac finish :=
   bool_hyps; repeat match goal with H : _ \/ _ |- _ => destruct H end; bool_hyps; leave_facts; try congruence; unfold sv in *;
   repeat match goal with H : s32 (ea _) = _ |- _ => rewrite H in * end;
   simp_goal; cbn [held held0 hb hk one b2z] in *; borrow_facts; s32_norm;
-  repeat split; try lia; try (unfold borrowed_ok in *; lia).
+  repeat split;
+  try match goal with
+      | |- borrowed_ok _ _ => unfold borrowed_ok in *; lia
+      | _ => lia
+      end.
 
 Lemma greg_step1 r pv p g e p' ups g' :
   Greg r pv -> wfpc p -> 0 <= g -> (forall k, held k p g <= pv k) -> (forall k, 0 <= pv k) ->
